@@ -61,7 +61,7 @@ def one(ctx, h, w, pattern, single_cycle, prim, be):
     st = msolve.state()
     f0 = st.fired
     try:
-        res = s.solve(backend=(be if prim else None))
+        res = s.solve(backend=(D.backend_for(ctx, s, be) if prim else None))
     except OverflowError:
         ctx.inconc("stand-in overflow", ctx.current_case)
         return
